@@ -53,8 +53,12 @@ func genCsvImport(r *Rng) *Enc {
 	if big && ncols < 2 {
 		ncols = 2
 	}
-	hdrNames := []string{"a", "b", "c", "d", "a b", "x,y", "q\"q", "", " s", "#h", "s ", "a "}
+	sparse := big && nrows > 1100 && r.Bool() // one column holds text / blanks for the first 1100 records, numbers afterwards
+	hdrNames := []string{"a", "b", "c", "d", "a b", "x,y", "q\"q", "", " s", "#h", "s ", "a ", "sep=;", "sep=,"}
 	perm := r.Perm(len(hdrNames))
+	if ncols == 1 && r.Chance(10) {
+		perm[0] = len(hdrNames) - 1 - r.Intn(2) // a lone header field that looks like a separator directive
+	}
 	for j := 0; j < ncols; j++ {
 		if j > 0 {
 			sb.WriteByte(',')
@@ -80,6 +84,13 @@ func genCsvImport(r *Rng) *Enc {
 				sb.WriteByte(',')
 			}
 			f := Pick(r, csvFieldAlpha)
+			if sparse && j == ncols-1 {
+				if i < 1100 {
+					f = Pick(r, []string{"", "n/a", "x"})
+				} else {
+					f = Pick(r, []string{"7.5", "3", "1e2"})
+				}
+			}
 			if strings.ContainsAny(f, ",\"\n\r") || r.Chance(15) {
 				sb.WriteString(csvQuote(f))
 			} else {
@@ -176,7 +187,8 @@ func csvCellFor(r *Rng, inDomain bool) any {
 		case 1:
 			return Pick(r, []int{1 << 53, -(1 << 53), 123456789012, 0})
 		case 2:
-			return Pick(r, []float64{0.1, 1.5, -2.25, 1e21, 1e-7, 5e-324, math.MaxFloat64, math.NaN(), math.Inf(1), math.Inf(-1), math.Copysign(0, -1), 9007199254740993})
+			return Pick(r, []float64{0.1, 1.5, -2.25, 1e21, 1e-7, 5e-324, math.MaxFloat64, math.NaN(), math.Inf(1), math.Inf(-1), math.Copysign(0, -1), 9007199254740993,
+				9223372036854775808.0, -9223372036854775808.0, 1e19, 18446744073709551616.0, 4294967296.0})
 		case 3:
 			return float64(r.Range(-3, 3))
 		default:
@@ -241,10 +253,11 @@ func genCsvRoundTrip(r *Rng) *Enc {
 	e.Frame(df)
 	var buf bytes.Buffer
 	viaFile := csvDir != "" && r.Chance(20)
+	rtFile := Pick(r, []string{"rt.csv", "rt.csv", "EXPORT.TSV", "data.tsv", "x.Tsv", "noext", "a.CSV", "t.txt"})
 	st, _ := guard(func() error {
 		if viaFile {
 			// the by-path API, over a file that already exists and is longer than what will be written
-			path := csvDir + "/rt.csv"
+			path := csvDir + "/" + rtFile
 			if err := os.WriteFile(path, bytes.Repeat([]byte("old,old,old\n1,2,3\n"), 40), 0o644); err != nil {
 				return err
 			}
@@ -263,7 +276,7 @@ func genCsvRoundTrip(r *Rng) *Enc {
 	st2, _ := guard(func() error {
 		var err error
 		if viaFile {
-			back, err = dataframe.NewDataFrame().FromCSV(csvDir + "/rt.csv")
+			back, err = dataframe.NewDataFrame().FromCSV(csvDir + "/" + rtFile)
 			return err
 		}
 		back, err = dataframe.FromCSVReader(bytes.NewReader(buf.Bytes()))
